@@ -179,6 +179,7 @@ struct Ctx {
 };
 
 static std::map<int, Ctx> g_ctx;
+static std::map<int, std::string> g_saved;   // text produced by the last unparse of each context
 
 static std::string drainOut(Ctx& c) {
   if (!c.ctx || c.fd < 0) return "";
@@ -294,9 +295,10 @@ static std::string doStep(const vj::Val& st) {
       getCtx(id, st.boolean("trusted", false));
       o += ",\"oc\":\"ok\"";
     }
-    else if (op == "exec" || op == "parse") {
+    else if (op == "exec" || op == "parse" || op == "execsaved") {
       Ctx& c = getCtx(id);
-      StringReader rd(subst(st.str("text")));
+      std::string srctext = (op == "execsaved") ? g_saved[(int)st.num("from", 0)] : subst(st.str("text"));
+      StringReader rd(srctext);
       Executable* ex = nullptr;
       std::string oc = "ok"; int no = 0; std::string name, msg;
       try {
@@ -306,14 +308,14 @@ static std::string doStep(const vj::Val& st) {
       if (ex) {
         c.execs.push_back(ex);
         c.last = ex;
-        if (op == "exec") {
+        if (op != "parse") {
           try { ex->run(); }
           catch (RuntimeError& re) { oc = "runtime_error"; no = re.no; name = errName(re); msg = re.what(); }
         }
       }
       o += ",\"oc\":" + vj::q(oc) + ",\"no\":" + std::to_string(no) + ",\"name\":" + vj::q(name);
       o += ",\"out\":" + vj::q(drainOut(c));
-      if (op == "exec") {
+      if (op != "parse") {
         o += ",\"rv\":" + retJson(*c.ctx);
         /* what a host does after a run: the return condition belongs to the finished program */
         c.ctx->returnCondition(false);
@@ -480,6 +482,7 @@ static std::string doStep(const vj::Val& st) {
         if (pread(fd, &text[0], n, 0) < 0) text.clear();
         fclose(f);
       }
+      g_saved[id] = text;
       o += ",\"oc\":\"ok\",\"text\":" + vj::q(text);
     }
     else if (op == "clone") {
